@@ -16,6 +16,7 @@ Decided:
 Not decided: that the junction pulse lands in the later-tagged object for every topology.
 """
 import ast
+import re
 from ..model import AnalysisError, walk_no_nested, norm, dotted, parent, enclosing_stmt
 from ..rules import loops_in, loop_reaches_on_all_paths, calls_in
 
@@ -219,6 +220,10 @@ def run(ctx, ck):
                 continue            # a path that rejects the option
             if feasible_counts(p_) == set():
                 continue            # its tests on the number of fields contradict each other
+            und_ = [t_ for t_, b_ in p_.conds if isinstance(t_, str) and re.search(r'\.\w+\(len\(', t_)]
+            if und_:
+                # the number of fields is tested by a method of a table object: which paths are feasible is not known
+                raise AnalysisError('mininec.main: the test on the number of fields is not understood: %s' % und_[0][:80])
             for ev in p_.events:
                 call = ev[2] if ev[0] == 'create' else (ev[1] if ev[0] == 'call' else None)
                 if not isinstance(call, ast.Call):
@@ -259,7 +264,7 @@ def run(ctx, ck):
     ct = m.func('mininec.Geo_Container.compute_tags')
     # decided on the symbolic walk of compute_tags (loops entered once, elements bound) and, for the
     # running automatic tag, on the loop body as a state transformer
-    import re
+    pass  # (re is imported at module level)
     from ..symx import SymExec, loop_transformer, copy_replace
     from ..poly import poly_roles, cancel, Poly
     se_ = SymExec(ctx, ct, bind_loops=True, max_paths=2000)
